@@ -6,6 +6,7 @@ CONSTANTS
   ForgetCloseOnFault = FALSE
   StaleLengthOnRenderFault = TRUE
   StatusStringAsIs = FALSE
+  ReturnOnDisconnect = FALSE
   Tier = "tiny"
   Ifaces = {"wsgi", "asgi"}
   Codes = {200, 204}
